@@ -123,6 +123,7 @@ SKIP_HARNESSES = {
     "c05_mov_store": "same as c05_mov_load",
     "gi_imul_r_rm_imm_w32_reg": "IMUL r32, r/m32, imm8/imm32 in the plain register shape ran into the 25 min cap (independent 32x32 multiplier, two forms); the same two forms "
                                 "are decided in the regalias/reghi/regrex/regx shapes (7-13 min each)",
+    "gd_Imul_r64_rm64_imm32_mem": "two runs of a 64-bit multiplier with a symbolic memory operand ran into the 25 min cap; the register-shape twin of IMUL (gd_Imul_*_reg) is decided",
     "gd_Idiv_rm64_reg": "two 128-bit divider circuits (two runs of IDIV r/m64) exceed 25 min; determinism of the 8/16/32-bit forms follows from their C01 obligations",
     "gd_Idiv_rm64_mem": "same as gd_Idiv_rm64_reg",
     "gd_Div_rm64_reg": "same as gd_Idiv_rm64_reg",
